@@ -225,13 +225,13 @@ def rule_c09_reset(prog: Program, col: Collector) -> None:
     okk = len(e.args) == 2 and e.args[0] == ("call", ("attr", gen, "get_values"), (K0,), ()) and e.args[1] == K0
     col.check(okk, ref.where(e.node), ref.short, "set_known_values(full_game.get_values(K0), K0) with the same list K0 = initially_known_coalitions",
               construct="reset-known", necessity="values and coalitions must be paired element by element, from the NEW hidden game")
-    col.check(e.seq > fg[-1].seq, ref.where(e.node), ref.short, "knowledge is reset after the new game is drawn", construct="reset-order", necessity="")
+    col.check(e.seq > fg[-1].seq, ref.where(e.node), ref.short, "knowledge is reset after the new game is drawn", construct="reset-order", necessity="resetting the knowledge before the new game is drawn writes the OLD game's values as the minimal information")
     st = [x for x in ft.of_kind("store") if x.attr == "steps_taken" and x.obj == SELF]
     col.check(bool(st) and st[-1].value == ("const", 0), ref.where(), ref.short, "steps_taken = 0", construct="reset-steps",
               necessity="the step budget restarts with every episode")
     ret = _single_return(ft, ref)
     col.check(ret[0] == "tuple" and len(ret[1]) == 2 and ret[1][0] == A("state"), ref.where(), ref.short,
-              "reset returns (self.state, info)", construct="reset-return", necessity="")
+              "reset returns (self.state, info)", construct="reset-return", necessity="the observation returned by reset must be the state after the reset")
 
 
 def _atoms_or(t: Term) -> list[Term]:
@@ -324,7 +324,7 @@ def rule_h3_undo(prog: Program, col: Collector) -> None:
               necessity="undoing another coalition leaves the revealed one known: reveal-then-unreveal must restore the knowledge exactly")
     other = [e for e in uft.calls() if e.recv == R and e.name in ("reveal_value", "set_value", "set_values", "set_known_values", "unset_value")]
     col.check(not other, uref.where(other[0].node if other else None), uref.short, "unstep performs no other knowledge mutation", construct="unstep-extra",
-              necessity="")
+              necessity="any further knowledge mutation in unstep makes reveal-then-undo differ from the state before the reveal")
     cb = [e for e in uft.calls("compute_bounds") if e.recv == R]
     col.check(bool(cb) and bool(un) and cb[0].seq > un[0].seq, uref.where(), uref.short, "unstep recomputes the bounds after the un-reveal",
               construct="unstep-recompute", necessity="without recomputation the bounds of the larger knowledge state survive the undo")
@@ -335,7 +335,7 @@ def rule_h3_undo(prog: Program, col: Collector) -> None:
               necessity="an undo that does not restore the counter makes done (step budget) history dependent")
     ret = _single_return(uft, uref)
     oki = ret[0] == "tuple" and len(ret[1]) == 5 and ret[1][0] == A("state") and ret[1][1] == A("reward") and ret[1][2] == A("done")
-    col.check(oki, uref.where(), uref.short, "unstep returns (self.state, self.reward, self.done, ...)", construct="unstep-return", necessity="")
+    col.check(oki, uref.where(), uref.short, "unstep returns (self.state, self.reward, self.done, ...)", construct="unstep-return", necessity="solvers read position 1 of the result as the reward of the restored state")
 
 
 # --------------------------------------------------------------------------------------
@@ -369,7 +369,7 @@ def rule_c16(prog: Program, col: Collector) -> None:
     col.check(ok, init.where(ss[-1].node), init.short, "subset_sizes[i] = len(inner.explorable_coalitions[i])", construct="sizes",
               necessity="sizes must be aligned with the inner env's explorable index space")
     st = [e for e in ift.of_kind("store") if e.attr == "icg_gym"]
-    col.check(bool(st) and st[-1].value == ("param", ip), init.where(), init.short, "the wrapper keeps the inner env it was given", construct="inner", necessity="")
+    col.check(bool(st) and st[-1].value == ("param", ip), init.where(), init.short, "the wrapper keeps the inner env it was given", construct="inner", necessity="every pass-through and every aggregation reads the inner env: a wrapper that keeps another object reports another episode")
     sref = _method(prog, LIN, "_sum_values_of_the_same_size")
     sft = fterms(prog, sref)
     xp = ("param", sref.positional_params()[1])
@@ -388,14 +388,14 @@ def rule_c16(prog: Program, col: Collector) -> None:
               necessity="the mask allows size k iff some explorable coalition of size k is still unknown")
     ref = _method(prog, LIN, "state")
     rv = _single_return(fterms(prog, ref), ref)
-    col.check(rv == agg(("attr", IN, "state")), ref.where(), ref.short, "state = aggregate(inner.state)", construct="lin-state", necessity="")
+    col.check(rv == agg(("attr", IN, "state")), ref.where(), ref.short, "state = aggregate(inner.state)", construct="lin-state", necessity="the observation of the linear env is the per-size aggregate of the inner observation")
     ref = _method(prog, LIN, "reset")
     rft = fterms(prog, ref)
     rv = _single_return(rft, ref)
     rcall = [e for e in rft.calls("reset") if e.recv == IN]
     okr = bool(rcall) and rv[0] == "tuple" and len(rv[1]) == 2 and rv[1][0] == agg(("index", rcall[0].term, ("const", 0))) \
         and rv[1][1] == ("index", rcall[0].term, ("const", 1))
-    col.check(okr, ref.where(), ref.short, "reset returns (aggregate(inner observation), inner info)", construct="lin-reset", necessity="")
+    col.check(okr, ref.where(), ref.short, "reset returns (aggregate(inner observation), inner info)", construct="lin-reset", necessity="reset must report the aggregate of the inner reset observation and the inner info")
 
     col.rule("Z2", "the inner action is drawn FROM the candidates = positions where (size == requested) AND inner mask", 3)
     ref = _method(prog, LIN, "step")
@@ -448,7 +448,7 @@ def rule_c16(prog: Program, col: Collector) -> None:
     for nm in ("done", "reward"):
         ref2 = _method(prog, LIN, nm)
         rv2 = _single_return(fterms(prog, ref2), ref2)
-        col.check(rv2 == ("attr", IN, nm), ref2.where(), ref2.short, f"{nm} delegates to the inner env", construct=f"lin-{nm}", necessity="")
+        col.check(rv2 == ("attr", IN, nm), ref2.where(), ref2.short, f"{nm} delegates to the inner env", construct=f"lin-{nm}", necessity="the linear env must report the underlying environment's reward and done flag")
 
 
 def rule_episode_state_reset(prog: Program, col: Collector) -> None:
